@@ -98,3 +98,25 @@ func verifSegmentEvent(event, location string) {
 		f(event, location)
 	}
 }
+
+// VerifTickSync reports an event time through database.Tick and waits until the rotation goroutine has processed it.
+// The two blocking sends are barriers: each is received only after the previous pass has finished; the passes are
+// idempotent (retention with the same deadline, creation of an existing segment).
+func VerifTickSync[T TSTable, O any](db TSDB[T, O], ts int64) {
+	d := db.(*database[T, O])
+	d.Tick(ts)
+	d.tsEventCh <- ts
+	// barriers with a no-op event time (1 ns: nothing is expired, nothing is created): each is received only after the
+	// previous pass has finished, so when the last one has been taken every pass for ts is complete
+	d.tsEventCh <- 1
+	d.tsEventCh <- 1
+	quiet := 0
+	for i := 0; i < 5000 && quiet < 5; i++ {
+		if d.rotationProcessOn.Load() {
+			quiet = 0
+		} else {
+			quiet++
+		}
+		time.Sleep(time.Millisecond)
+	}
+}
